@@ -19,10 +19,19 @@
     (iii) [insert_rr] of a well-formed pointer-free non-OPT record into any record section of a freshly parsed
     object leaves a view equal to the fresh parse of the new bytes in every field (C08_insert_view; the full effect is
     C09_insert_effect);
-    (iv) shape/frame lemmas of the other operations the invariant proof will rest on. *)
+    (iv) HISTORIES over a sub-language of operations (C08_histories): for every accepted response, any history that starts
+    with an insertion or a recompute (either decompresses) and goes on with ANY sequence of successful insertions of
+    well-formed pointer-free non-OPT records into any record section, recomputes, set_tid, set_rcode, set_opcode,
+    set_response(true) and set_flags with the QR bit ends in a state [dinv]: the bytes are accepted, are a fixed point of
+    decompression, the object says "not compressed", and every section offset, the EDNS offset, option count, extended
+    rcode, version, flags and payload size are those of a fresh parse of the bytes.  Each operation preserves [dinv]
+    on its own (C08_step_keeps_invariant).  The operations left out are those that move the cursor (TTL / address /
+    name setters, deletion) and the two that may leave the parser's QR gating (set_response(false), set_flags without
+    QR: known finding qr-gating); header setters on a still-compressed object are the known finding header-pointer;
+    (v) shape/frame lemmas of the other operations. *)
 From DV Require Import Model.Base Model.NameCheck Model.Parser Model.Header Model.Readers Model.Uncompress
   Model.Mutate Model.Compress Model.Renamer Spec.PacketSpec Spec.RecordSpec Spec.PlainSpec Proofs.Hoare Proofs.HeaderBits Proofs.InsertLemmas Proofs.EdnsPlain Proofs.WalkSkip
-  Proofs.ViewAfter Proofs.InsertSpec.
+  Proofs.ViewAfter Proofs.InsertSpec Proofs.HeaderInv.
 
 Theorem C08_decompression_keeps_edns_summary : forall p v q v',
   bytes_ok p -> parse p = Ok v -> uncompress p = Ok q -> parse q = Ok v' ->
@@ -108,3 +117,60 @@ Theorem C08_insert_view : forall p v it sec rx s',
     pp_maybe_compressed (fst s') = false /\ pp_cached (fst s') = None.
 Proof. exact insert_fresh_view. Qed.
 Print Assumptions C08_insert_view.
+
+Theorem C08_step_keeps_invariant : forall o v it s1, dinv v -> is_response (pp_packet v) -> hop2_ok o ->
+  run_hop2 o (v, it) = (s1, Ok tt) -> dinv (fst s1) /\ snd s1 = it /\ is_response (pp_packet (fst s1)).
+Proof. exact hop2_keeps_dinv. Qed.
+Print Assumptions C08_step_keeps_invariant.
+
+Theorem C08_histories : forall p v it o ops s', bytes_ok p -> parse p = Ok v -> is_response p ->
+  (o = H2Recompute \/ exists sec rx, o = H2Insert sec rx) -> Forall hop2_ok (o :: ops) ->
+  run_hops2 (o :: ops) (v, it) = (s', Ok tt) -> dinv (fst s') /\ snd s' = it.
+Proof. exact fresh_history2_dinv. Qed.
+Print Assumptions C08_histories.
+
+(** the vocabulary of the two statements above *)
+Example C08_history_vocabulary :
+  (forall v, dinv v <->
+     pp_maybe_compressed v = false /\ bytes_ok (pp_packet v) /\ uncompress (pp_packet v) = Ok (pp_packet v) /\
+     exists f, parse (pp_packet v) = Ok f /\
+       pp_packet v = pp_packet f /\
+       pp_offset_question v = pp_offset_question f /\ pp_offset_answers v = pp_offset_answers f /\
+       pp_offset_nameservers v = pp_offset_nameservers f /\ pp_offset_additional v = pp_offset_additional f /\
+       pp_offset_edns v = pp_offset_edns f /\ pp_edns_count v = pp_edns_count f /\ pp_ext_rcode v = pp_ext_rcode f /\
+       pp_edns_version v = pp_edns_version f /\ pp_ext_flags v = pp_ext_flags f /\ pp_max_payload v = pp_max_payload f) /\
+  (forall p, is_response p <-> exists w, u16_at p 2 w /\ N.land w 32768 = 32768%N) /\
+  (forall o, run_hop2 o = match o with
+     | H2Insert sec rx => m_insert_rr sec (plain_record rx)
+     | H2Recompute => m_recompute
+     | H2Tid n => lift_v (fun v => pp_set_tid v n)
+     | H2Rcode n => lift_v (fun v => pp_set_rcode v n)
+     | H2Opcode n => lift_v (fun v => pp_set_opcode v n)
+     | H2Response => lift_v (fun v => pp_set_response v true)
+     | H2Flags n => lift_v (fun v => pp_set_flags v n)
+     end) /\
+  (forall o, hop2_ok o <-> match o with
+     | H2Insert sec rx => plain_rr_ok rx /\ (sec = SAnswer \/ sec = SNameServers \/ sec = SAdditional)
+     | H2Rcode n | H2Opcode n => (n < 256)%N
+     | H2Flags n => N.land n 32768 = 32768%N
+     | _ => True
+     end) /\
+  (forall f s, lift_v f s = match f (fst s) with Ok v' => ((v', snd s), Ok tt) | Err e => (s, Err e) | Panic x => (s, Panic x) end).
+Proof.
+  split.
+  { intros v. split.
+    - intros [A B C (f & D & E)]. split; [exact A|]. split; [exact B|]. split; [exact C|]. exists f. split; [exact D|exact E].
+    - intros (A & B & C & f & D & E). constructor; [exact A|exact B|exact C|exists f; split; [exact D|exact E]]. }
+  split; [intros p; reflexivity|]. split; [intros o; destruct o; reflexivity|]. split; [intros o; destruct o; reflexivity|].
+  intros f s. reflexivity.
+Qed.
+
+(** Non-vacuity: on a small response, [insert A record; set_tid; set_rcode; recompute] runs to the end. *)
+Example C08_history_runs :
+  let p := [0;7; 129;128; 0;1; 0;1; 0;0; 0;0;  1;97;0; 0;1; 0;1;  192;12; 0;1; 0;1; 0;0;0;9; 0;4; 1;2;3;4]%N in
+  exists v s', parse p = Ok v /\ is_response p /\
+    run_hops2 [H2Recompute; H2Tid 4660; H2Rcode 3; H2Opcode 2; H2Response; H2Flags 33024; H2Recompute] (v, it_new SAnswer) = (s', Ok tt).
+Proof.
+  cbv zeta. eexists. eexists. split; [vm_compute; reflexivity|]. split; [exists 33152%N; split; [exists 129%N, 128%N; repeat split|reflexivity]|].
+  vm_compute. reflexivity.
+Qed.
